@@ -191,6 +191,22 @@ fn scale_oracles(ctx: &mut Ctx, spec: &NetSpec, net: &Network, x: &Tensor, y: &T
             }
         }
     }
+    // the diagonal pattern under overwrite: the target processes the source's input, whatever its ordinary input was
+    // (also when that overflowed): with an identity second layer the prediction IS the network input, bit for bit
+    if spec.skipacc == "overwrite" && spec.builds.len() == 3 {
+        if let (Build::Layer(InnerSpec::Dense { act: a0, bias: false, .. }), Build::Layer(InnerSpec::Dense { act: a1, bias: false, w: w1, .. }), Build::Connect(0, 1)) =
+            (&spec.builds[0], &spec.builds[1], &spec.builds[2]) {
+            if let Data::Double(m1) = &w1.data {
+                let n = xf.len();
+                let ident = m1.len() == n && m1.iter().enumerate().all(|(i, r)| r.len() == n && r.iter().enumerate().all(|(j, v)| if i == j { *v == 1.0 } else { *v == 0.0 }));
+                if a0 == "linear" && a1 == "linear" && ident && yf.len() == n && xf.iter().all(|v| v.is_finite()) {
+                    let ok = yf.iter().zip(xf.iter()).all(|(a, b)| a.to_bits() == b.to_bits() || (*a == 0.0 && *b == 0.0));
+                    ctx.oracle(ok, key, "with overwrite accumulation the target processes the input that was fed to the source (here: the network input, through an identity layer)",
+                        desc.to_string(), format!("{:?}", yf), format!("{:?}", xf));
+                }
+            }
+        }
+    }
     // the diagonal pattern
     if spec.skipacc == "mean" && spec.builds.len() == 3 {
         if let (Build::Layer(InnerSpec::Dense { act: a0, bias: false, w: w0, .. }), Build::Layer(InnerSpec::Dense { act: a1, bias: false, w: w1, .. }), Build::Connect(0, 1)) =
